@@ -16,6 +16,15 @@ def run(ctx):
     ctx.assumptions += ["real arithmetic (float rounding order ignored)", "direction is one of the documented values None / 'positive' / 'negative'"]
     cusum(ctx)
     page_hinkley(ctx)
+    # every stream spans epochs: prologue, counting, clean slate, constructor wiring, starting values, univariate guard
+    from . import common, c14
+    common.lifecycle(ctx, ["CUSUM", "PageHinkley"])
+    zero = atom(("list", (const(0),)))
+    common.init_table(ctx, "CUSUM", {"_upper_bound": zero, "_lower_bound": zero})
+    common.init_table(ctx, "CUSUM", {"_stream": atom(("list", ()))}, methods=("__init__",))
+    common.init_table(ctx, "PageHinkley", {"_max": 0, "_min": 0, "_sum": 0, "_mean": 0})
+    for n in ("CUSUM", "PageHinkley"):
+        c14.univariate(ctx, n)
 
 
 def appends(tr, attr):
@@ -106,6 +115,9 @@ def cusum(ctx):
     # sd == 0 is an error only after burn-in
     rz = [e for e in tr.raises() if e.func.qualname == "CUSUM.update" and any(T.mentions(g, lambda a: a == ("attr", "sd_hat")) for g in guards(e))]
     ctx.ob("GRD", "CUSUM.update", "zero standard deviation raises only after burn-in", bool(rz) and all(q.has_guard(e, S("s > A_burn_in", {"s": ssr})) for e in rz), "")
+    ctx.ob("GRD", "CUSUM.update", "the degenerate-stream error is raised exactly when the standard deviation is 0",
+           bool(rz) and all(q.has_guard(e, T.mk_cmp("==", A("sd_hat"), const(0))) for e in rz),
+           "guards: %s" % "; ".join(q.short(g, 80) for e in rz[:1] for g in guards(e)), rz[0] if rz else None)
 
 
 def _flat(conds):
